@@ -260,3 +260,30 @@ func noiseLeak(rep obs.Reply) bool {
 	}
 	return false
 }
+
+// bigValues returns n poorly compressible values (a response that carries them does not fit a redirect URL of a few kilobytes).
+func bigValues(n int, tag string) []string {
+	out := make([]string, n)
+	x := uint64(88172645463325252)
+	for i := range out {
+		x ^= x << 13
+		x ^= x >> 7
+		x ^= x << 17
+		out[i] = fmt.Sprintf("grp-%s-%016x", tag, x)
+	}
+	return out
+}
+
+// bigString returns a string of n bytes that does not compress well.
+func bigString(n int, tag string) string {
+	var b strings.Builder
+	b.WriteString(tag)
+	x := uint64(2463534242)
+	for b.Len() < n {
+		x ^= x << 13
+		x ^= x >> 7
+		x ^= x << 17
+		fmt.Fprintf(&b, "%x.", x)
+	}
+	return b.String()[:n]
+}
